@@ -51,6 +51,14 @@ CLAIMED = {
          'Machine-checked proof (Lean 4), for every grammar and token array: a successful parse returns trees whose leaves in order are exactly the significant tokens of the consumed range (nothing skipped or used twice, operators and operands in source order); every construct restores the short-if limit it found (so a nested short-if cannot lift the outer one\'s), and the body of every short-if invocation, at any nesting, lies before the first newline token after its condition. picotool\'s parser is transcribed as grammar data and tied to parser.py by comparing full trees with all (start,end) spans on generated and malformed programs; statement kinds/extents are checked against the generator\'s own structure. PARTIAL: that every dialect program is accepted to its last token is tested, not proved.',
          'Trusted: Lean kernel; the grammar transcription (correspondence-tested); gen_tables.py operator tables. Known model gap: empty parentheses `x=()` (malformed input) are a parse error in the model.',
          '5/C08'),
+ 'C07': ('Lean 4 proof: ordered first-match table = longest match of the reference grammar (general lemma + kernel-evaluated side conditions on the regenerated table, first-byte class analysis); whole-source agreement and chunk independence by state-machine induction; correspondence with compiled model',
+         'Machine-checked proof (Lean 4), for EVERY source: walking picotool\'s ordered pattern table (first match wins) yields the longest match among the token classes of the reference grammar with the same kind and extent (the side conditions - e.g. no earlier literal is a proper prefix of a later one - are re-checked against the table regenerated from lexer.py on every run, so `>>` before `>>>` breaks the proof); whenever the reference grammar accepts a source the lexer returns exactly its token list (boundaries, kinds, decoded strings, line/column); tokenisation is the same for one chunk and for per-line chunks. Tied to lexer.py by differential execution on all strings up to length 3/4 over a 30-symbol alphabet, random strings, generated programs; numeric values are compared with exact rationals of the Spec in the harness (floats are not modelled in Lean).',
+         'Trusted: Lean kernel; gen_tables.py (sre_parse classification of the matcher table); hand-written matchers for the 13 structured regex patterns (validated against Python re through the real lexer); Spec/LuaLex.lean as the statement of the dialect (DESIGN 4.1 decisions); TokNumber.value (float) checked by the harness only.',
+         '5/C07'),
+ 'C01': ('Lean 4 proof: end-to-end re-lex theorem for the token minifier (per-kind lexer lemmas, invariants of lexer-produced tokens, induction over the token list with the writer and name-factory state); correspondence with compiled model',
+         'Machine-checked proof (Lean 4) for EVERY source the lexer accepts and every configuration: the text luamin writes lexes to exactly the input\'s significant tokens in order - keywords, symbols, numbers by spelling, strings by decoded value and quote kind, identifiers and labels up to one renaming function - provided no two adjacent symbol/number tokens form a pair that fuses when written back to back and that luamin does not separate (FusablePair: `~` `=`, `<` `<`, `.` `5`, ...); such pairs cannot be adjacent in a program the parser accepts (grammar fact, covered by the generator-based checks, not proved). Also proved: the four fusing pairs of valid programs are separated, word-like tokens are always separated, newline tokens are kept (line-scoped shorthands keep their extent), token count is invariant under the read-back relation. Tied to lua.py by differential execution on programs x layouts x configurations and all grammatical ordered pairs of 70 token-class representatives; the real output is re-lexed by the Lean reference lexer.',
+         'Trusted: Lean kernel; hand models of LuaMinifyTokenWriter/lexer; that accepted programs contain no FusablePair (tested); CLI wiring (luamin, build --lua-minify) by correspondence only.',
+         '5/C01'),
 }
 NOT_YET = 'check not built yet in this round (framework under construction); will be claimed when its Lean model, theorems and correspondence run'
 
